@@ -49,3 +49,739 @@ DELAUNAY = {
     "D9": [[1.5, -1.0], [1.0, 1.25], [0.25, 0.125], [-1.0, -1.5], [-1.25, 1.0], [-0.25, -0.375], [0.5, -0.25],
            [1.25, 0.25], [-0.75, 0.25]],
 }
+
+BOUNDS = {
+    "quick": "neighbour tables computed by the repository's own mesh code for rectangular meshes 3x3, 3x4, 4x3, 4x4, 3x5, 5x5 and Delaunay vertex "
+             "sets D5, D6, D7, D9 (5-9 vertices); additionally EVERY symmetric neighbour table on <= 4 pixels (forked adjacency bits). Symbolic "
+             "reals: all coefficients (> 0), per-pixel weights (>= 0), adapt-data image (3x3, > 0), signal scale (symbolic via an uninterpreted "
+             "pow, and the concrete values 1, 2), pixel signals, split-cross interpolation weights, the test vector x, arbitrary regularization "
+             "blocks at the inversion level. Direct solver decision of positive definiteness (exists x != 0: x^T H x <= 0 is unsat) for the "
+             "constant-coefficient schemes on meshes with <= 9 pixels; block placement for every sequence of <= 3 linear objects over "
+             "{regularized 2x2, unregularized 1, unregularized 2} plus sequences containing a real rectangular mapper",
+    "thorough": "same plus rectangular meshes up to 6x6, every symmetric neighbour table on 5 pixels, direct definiteness up to 12 pixels (3x4, 4x3, D9), "
+                "4x4 adapt image, block sequences of <= 4 objects",
+}
+OUTSIDE = [
+    "GaussianKernel / ExponentialKernel / MaternKernel schemes (exp of distances followed by a compiled matrix inverse; nothing is claimed)",
+    "float64 rounding: for coefficients >~ 1e4 the absolute 1e-8 ridge is below the float resolution of the matrix entries, so the float matrix "
+    "is numerically singular although the real-arithmetic matrix is positive definite",
+    "meshes beyond the listed shapes / vertex sets; Voronoi meshes; Delaunay adjacency itself is qhull's answer (the reference pairs are the "
+    "edges of scipy.spatial.Delaunay simplices, the repository reads vertex_neighbor_vertices)",
+    "direct (solver-only) definiteness for the per-pixel weighted schemes: nlsat does not terminate with n weights + n unknowns; there the "
+    "verdict is the solver-decided certificate (quadratic-form identity with non-negative pair coefficients, strict row dominance) plus the lemma below",
+]
+STUBS = [
+    "pixel_signals ** signal_scale with a symbolic signal_scale: uninterpreted function pow(base, exponent) (no axioms; every obligation holds "
+    "for arbitrary real values of the signals, so none are needed). Cases with signal_scale 1 and 2 use the exact polynomial.",
+    "scipy.spatial.Delaunay / find_simplex run natively on the concrete vertex sets (mesh geometry is concrete)",
+    "autoarray.mock MockMapper / MockLinearObj / MockRegularization / MockInversion as carriers of symbolic split-cross tables, pixel signals "
+    "and regularization blocks (the code under test - scheme classes, LinearObj.regularization_matrix, AbstractInversion.regularization_matrix"
+    "[_reduced] - is the real one)",
+]
+ASSUMPTIONS = [
+    "coefficients > 0, adapt data > 0, kernel-level weights >= 0 (as the property quantifies)",
+    "lemma (not decided by the solver): a symmetric matrix whose quadratic form equals sum_k a_k * (linear form_k(x))^2 + r*|x|^2 with all a_k >= 0 "
+    "and r > 0 is positive definite; a symmetric matrix with positive diagonal that is strictly (weakly) row diagonally dominant is positive "
+    "(semi-)definite (Gershgorin). The identities, the signs a_k >= 0, r > 0 and the dominance are solver-decided for all symbolic inputs.",
+    "lemma: x != 0 iff for some i: x_0..x_{i-1} = 0 and x_i != 0; the quadratic form is homogeneous, so x_i = 1 w.l.o.g. (direct definiteness "
+    "queries are split into these n cases)",
+]
+EXPLORER_OPTS = {"timeout_ms": 60000, "max_paths": 5000}
+BUDGET_S = {"quick": 900, "thorough": 2300}
+IMG = 3
+
+
+# ------------------------------------------------------------------------------------------------ engine work-arounds
+
+def POST_INSTALL():
+    """pow with a symbolic / non-integer exponent -> uninterpreted function (values.py raises Unsupported)"""
+    import sys
+    sys.set_int_max_str_digits(0)
+    orig_pow = V.SymReal.__pow__
+
+    def _uf_pow(base, exp):
+        f = V.ctx().uf("pow", 2)
+        return V.SymReal(f(V.to_real_term(base), V.to_real_term(exp)))
+
+    def sym_pow(self, o):
+        if isinstance(o, np.ndarray):
+            return NotImplemented
+        if V.is_sym(o):
+            return _uf_pow(self, o)
+        try:
+            return orig_pow(self, o)
+        except V.Unsupported:
+            return _uf_pow(self, o)
+
+    def sym_rpow(self, o):
+        if isinstance(o, np.ndarray):
+            return NotImplemented
+        return _uf_pow(o, self)
+
+    V.SymReal.__pow__ = sym_pow
+    V.SymReal.__rpow__ = sym_rpow
+
+
+class _Native:
+    """build concrete geometry with the facades passing through"""
+
+    def __enter__(self):
+        from symx import shim
+        self.s = shim.native()
+        self.s.__enter__()
+
+    def __exit__(self, *a):
+        self.s.__exit__(*a)
+
+
+# ------------------------------------------------------------------------------------------------ meshes and references
+
+_CACHE = {}
+
+
+def _rect_pairs(h, w):
+    pairs = []
+    for r in range(h):
+        for c in range(w):
+            if c + 1 < w:
+                pairs.append((r * w + c, r * w + c + 1))
+            if r + 1 < h:
+                pairs.append((r * w + c, (r + 1) * w + c))
+    return sorted(pairs)
+
+
+def _delaunay_pairs(points):
+    import scipy.spatial
+    tri = scipy.spatial.Delaunay(np.array(points, dtype=float))
+    pairs = set()
+    for s in tri.simplices:
+        for a, b in itertools.combinations(sorted(int(v) for v in s), 2):
+            pairs.add((a, b))
+    return sorted(pairs)
+
+
+def mesh_reference(mesh):
+    """independent of the repository: parameter count and the set of neighbouring pairs"""
+    if mesh[0] == "rect":
+        return mesh[1] * mesh[2], _rect_pairs(mesh[1], mesh[2])
+    if mesh[0] == "del":
+        return len(DELAUNAY[mesh[1]]), _delaunay_pairs(DELAUNAY[mesh[1]])
+    raise ValueError(mesh)
+
+
+def mesh_grid_from(mesh, grid=None):
+    import autoarray as aa
+    if mesh[0] == "rect":
+        return aa.Mesh2DRectangular.overlay_grid(shape_native=(mesh[1], mesh[2]), grid=grid)
+    return aa.Mesh2DDelaunay(values=aa.Grid2DIrregular(np.array(DELAUNAY[mesh[1]], dtype=float)))
+
+
+def image_parts(img):
+    import autoarray as aa
+    mask = aa.Mask2D.all_false(shape_native=(img, img), pixel_scales=1.0 if img == 3 else 0.75)
+    over_sampler = aa.OverSamplerUniform(mask=mask, sub_size=1)
+    return mask, over_sampler, over_sampler.over_sampled_grid
+
+
+def repo_tables(mesh):
+    """neighbour table of the repository's own mesh object (concrete)"""
+    key = ("tables", tuple(mesh))
+    if key not in _CACHE:
+        with _Native():
+            _, _, grid = image_parts(IMG)
+            mg = mesh_grid_from(mesh, grid)
+            nb = mg.neighbors
+            _CACHE[key] = (np.array(nb, dtype=int), np.array(nb.sizes, dtype=int))
+    return _CACHE[key]
+
+
+def graph_tables(adj_bits, n):
+    """neighbour table of an arbitrary symmetric adjacency (bits of the upper triangle)"""
+    bits = list(np.asarray(adj_bits, dtype=bool).reshape(-1))
+    pairs = [p for p, b in zip(itertools.combinations(range(n), 2), bits) if b]
+    lists = [[] for _ in range(n)]
+    for i, j in pairs:
+        lists[i].append(j)
+        lists[j].append(i)
+    width = max(1, max(len(l) for l in lists))
+    nb = -np.ones((n, width), dtype=int)
+    for i, l in enumerate(lists):
+        nb[i, :len(l)] = l
+    return nb, np.array([len(l) for l in lists], dtype=int), pairs
+
+
+def build_mapper(mesh, img, adapt=None):
+    import autoarray as aa
+    mask, over_sampler, grid = image_parts(img)
+    mg = mesh_grid_from(mesh, grid)
+    ad = None
+    if adapt is not None:
+        ad = aa.Array2D(values=np.asarray(adapt).reshape(img, img), mask=mask)
+    grids = aa.MapperGrids(mask=mask, source_plane_data_grid=grid, source_plane_mesh_grid=mg, adapt_data=ad)
+    return aa.Mapper(mapper_grids=grids, over_sampler=over_sampler, regularization=None)
+
+
+def split_tables(mesh):
+    """split-cross tables (mappings, sizes, weights) of the repository's Delaunay mapper (concrete)"""
+    key = ("split", tuple(mesh))
+    if key not in _CACHE:
+        with _Native():
+            m = build_mapper(mesh, IMG)
+            sc = m.pix_sub_weights_split_cross
+            _CACHE[key] = (np.array(sc.mappings, dtype=int), np.array(sc.sizes, dtype=int), np.array(sc.weights, dtype=float))
+    a, b, c = _CACHE[key]
+    return a.copy(), b.copy(), c.copy()
+
+
+def laplacian_ref(n, pairs, coef, diag_extra=None):
+    """ridge*I + sum_pairs coef(i,j) (e_i-e_j)(e_i-e_j)^T as an object matrix"""
+    H = np.zeros((n, n), dtype=object)
+    for i in range(n):
+        H[i, i] = RIDGE if diag_extra is None else RIDGE + diag_extra
+    for i, j in pairs:
+        k = coef(i, j)
+        H[i, i] = H[i, i] + k
+        H[j, j] = H[j, j] + k
+        H[i, j] = H[i, j] - k
+        H[j, i] = H[j, i] - k
+    return H
+
+
+def pair_form(n, pairs, coef, x):
+    q = 0.0
+    for i, j in pairs:
+        d = x[i] - x[j]
+        q = q + coef(i, j) * d * d
+    for i in range(n):
+        q = q + RIDGE * x[i] * x[i]
+    return q
+
+
+# ------------------------------------------------------------------------------------------------ obligation builders
+
+def _gt0(v, strict=True):
+    return (v > 0) if strict else (v >= 0)
+
+
+def matrix_checks(A, E, tag, H, n, x=None, H_ref=None, quad_ref=None, dominance=None, pd_direct=False):
+    """obligations about one regularization matrix H (proxy object array or float64 array)"""
+    if isinstance(H, hx.Raised):
+        A[tag + ".no_exception"] = repr(H) + " " + H.msg
+        E[tag + ".no_exception"] = "ok"
+        return False
+    H = np.asarray(hx.unwrap(H))
+    A[tag + ".shape"] = [int(s) for s in H.shape]
+    E[tag + ".shape"] = [n, n]
+    if tuple(H.shape) != (n, n):
+        return False
+    A[tag + ".symmetric"] = H - H.T
+    E[tag + ".symmetric"] = np.zeros((n, n))
+    if H_ref is not None:
+        A[tag + ".entries"] = H
+        E[tag + ".entries"] = H_ref
+    if quad_ref is not None:
+        A[tag + ".quadratic_form"] = x @ H @ x
+        E[tag + ".quadratic_form"] = quad_ref
+    if dominance is not None:
+        strict = dominance == "strict"
+        dom = np.zeros(n, dtype=object)
+        for i in range(n):
+            off = 0.0
+            for j in range(n):
+                if j != i:
+                    off = off + abs(H[i, j])
+            dom[i] = _gt0(H[i, i], strict) & _gt0(H[i, i] - off, strict)
+        A[tag + (".pd" if strict else ".psd") + "_certificate_row_dominance"] = dom
+        E[tag + (".pd" if strict else ".psd") + "_certificate_row_dominance"] = np.ones(n, dtype=bool)
+    if pd_direct:
+        # exists x != 0 with x^T H x <= 0  <=>  for some i: x_0..x_{i-1} = 0, x_i = 1 and x^T H x <= 0
+        for i in range(n):
+            xi = np.array(list(x), dtype=object)
+            xi[i] = 1.0
+            for j in range(i):
+                xi[j] = 0.0
+            A[tag + ".pd_direct.%d" % i] = (xi @ H @ xi) > 0          # one obligation per case: nlsat is far quicker on them separately
+            E[tag + ".pd_direct.%d" % i] = True
+    return True
+
+
+def diagonal_checks(A, E, tag, H, n):
+    """zeroth-order schemes: PSD because diagonal with non-negative entries (solver decides both facts)"""
+    if isinstance(H, hx.Raised):
+        A[tag + ".no_exception"] = repr(H) + " " + H.msg
+        E[tag + ".no_exception"] = "ok"
+        return
+    H = np.asarray(hx.unwrap(H))
+    A[tag + ".shape"] = [int(s) for s in H.shape]
+    E[tag + ".shape"] = [n, n]
+    if tuple(H.shape) != (n, n):
+        return
+    A[tag + ".symmetric"] = H - H.T
+    E[tag + ".symmetric"] = np.zeros((n, n))
+    off = H.copy()
+    for i in range(n):
+        off[i, i] = 0.0
+    A[tag + ".psd_off_diagonal_zero"] = off
+    E[tag + ".psd_off_diagonal_zero"] = np.zeros((n, n))
+    A[tag + ".psd_diagonal_nonnegative"] = np.array([H[i, i] >= 0 for i in range(n)], dtype=object)
+    E[tag + ".psd_diagonal_nonnegative"] = np.ones(n, dtype=bool)
+
+
+_NO_VALIDATE = ("_certificate_row_dominance", ".psd_diagonal_nonnegative")
+
+
+_ABS = {}
+
+
+def abstract_terms(arr):
+    """body -> run: obligations of this path may be decided with these (large) proxy terms replaced by fresh variables"""
+    _ABS["terms"] = [e.t for e in np.asarray(arr, dtype=object).reshape(-1) if isinstance(e, V.SymReal)]
+
+
+def check_all(ctx, A, E, known=None):
+    """hx.check_all plus term abstraction: the per-pixel weights reported by a scheme are deep ite/division terms in the
+    adapt data; every obligation is an algebraic fact about them, so it is first tried with each weight term replaced by a
+    fresh real (a sound generalisation: unsat there implies unsat for the actual terms).  Anything not discharged that way
+    is decided on the unabstracted terms (so counterexamples are always over the real inputs)."""
+    terms = _ABS.pop("terms", None)
+    subs = []
+    if terms:
+        seen = set()
+        for t in terms:
+            if t.get_id() not in seen and not z3.is_const(t):
+                seen.add(t.get_id())
+                subs.append((t, z3.Real("wabs!%d" % len(subs))))
+    for k in E:
+        if subs and k in A and not (known and k in known):
+            obs = [o for o in hx.eq_terms(A[k], E[k])]
+            zs = [o.t if isinstance(o, V.SymBool) else o for o in obs]
+            if all(isinstance(o, (bool, np.bool_)) or z3.is_expr(o) for o in zs):
+                conj = z3.And(*[z3.BoolVal(bool(o)) if isinstance(o, (bool, np.bool_)) else o for o in zs])
+                conj = z3.simplify(z3.substitute(conj, *subs))
+                if z3.is_true(conj):
+                    r = "unsat"
+                elif z3.is_false(conj):
+                    r = "sat"
+                else:
+                    r, _ = ctx._check_sliced(z3.Not(conj))
+                if r == "unsat":
+                    ctx.stats.obligations += 1
+                    ctx.stats.discharged += 1
+                    if len(ctx.stats.samples) < 4:
+                        ctx.stats.samples.append({"obligation": k, "case": dict(ctx.case_info), "verdict": "unsat",
+                                                  "smt_size": len(conj.sexpr()), "abstracted_weight_terms": len(subs)})
+                    continue
+        hx.check_all(ctx, A, E, known=known, only=[k])
+
+
+def run(ctx, body, inputs, kwargs, validate=True, known=None):
+    ctx.set_inputs(**inputs)
+    _ABS.clear()
+    A, E = body(inputs, **kwargs)
+    if validate:
+        # (before the obligations: the model of the bare path condition is then small)
+        # boolean certificates involve the absolute 1e-8 ridge and are float-fragile for large model values: they are
+        # decided by the solver only; every numeric output is cross-validated against the native run
+        keep = _ABS.get("terms")
+        hx.validate(ctx, body, inputs, kwargs, {k: v for k, v in A.items() if not (k.endswith(_NO_VALIDATE) or ".pd_direct." in k)}, every=1)
+        _ABS.clear()
+        if keep:
+            _ABS["terms"] = keep
+    else:
+        ctx.twin()
+    check_all(ctx, A, E, known=known)
+    return A, E
+
+
+def _positive(ctx, *vals):
+    for v in vals:
+        for e in np.asarray(v, dtype=object).reshape(-1):
+            ctx.assume(e.t > 0)
+
+
+def _nonneg(ctx, *vals):
+    for v in vals:
+        for e in np.asarray(v, dtype=object).reshape(-1):
+            ctx.assume(e.t >= 0)
+
+
+# ------------------------------------------------------------------------------------------------ level K: the kernels
+
+def body_kernels(inp, mesh, pd=False):
+    """regularization_util kernels on a neighbour table; coefficient / weights / x symbolic"""
+    from autoarray.inversion.regularization import regularization_util as ru
+    if mesh[0] == "graph":
+        n = mesh[1]
+        nb, sizes, pairs = graph_tables(inp["adj"], n)
+    else:
+        nb, sizes = repo_tables(mesh)
+        n, pairs = mesh_reference(mesh)
+    c, cz = inp["c"], inp["cz"]
+    w = np.asarray(inp["w"]).reshape(-1)[:n]
+    x = np.asarray(inp["x"]).reshape(-1)[:n]
+    A, E = {}, {}
+    A["table.rows"] = int(len(nb))
+    E["table.rows"] = n
+    if len(nb) != n:
+        return A, E
+    # Constant: x^T H x = c^2 sum_pairs (x_i-x_j)^2 + ridge |x|^2
+    H = hx.attempt(ru.constant_regularization_matrix_from, coefficient=c, neighbors=nb, neighbors_sizes=sizes)
+    matrix_checks(A, E, "constant", H, n, x, H_ref=laplacian_ref(n, pairs, lambda i, j: c * c),
+                  quad_ref=pair_form(n, pairs, lambda i, j: c * c, x), dominance="strict", pd_direct=pd)
+    # ConstantZeroth: symmetric PSD (certificate: row dominance)
+    H = hx.attempt(ru.constant_zeroth_regularization_matrix_from, coefficient=c, coefficient_zeroth=cz, neighbors=nb, neighbors_sizes=sizes)
+    matrix_checks(A, E, "constant_zeroth", H, n, x, dominance="weak", pd_direct=False)
+    # Zeroth / BrightnessZeroth kernels: diagonal with non-negative entries
+    diagonal_checks(A, E, "zeroth", hx.attempt(ru.zeroth_regularization_matrix_from, coefficient=c, pixels=n), n)
+    diagonal_checks(A, E, "brightness_zeroth", hx.attempt(ru.brightness_zeroth_regularization_matrix_from, regularization_weights=w), n)
+    # weighted (adaptive): pair (i,j) weighted by w_i^2 + w_j^2
+    H = hx.attempt(ru.weighted_regularization_matrix_from, regularization_weights=w, neighbors=nb, neighbors_sizes=sizes)
+    cw = lambda i, j: w[i] * w[i] + w[j] * w[j]
+    matrix_checks(A, E, "weighted", H, n, x, H_ref=laplacian_ref(n, pairs, cw), quad_ref=pair_form(n, pairs, cw, x), dominance="strict")
+    return A, E
+
+
+def case_kernels(ctx, mesh, pd=False):
+    if mesh[0] == "graph":
+        n = mesh[1]
+        adj = ctx.concrete_bools(V.bool_array("adj", (n * (n - 1) // 2,)))
+        ctx.set_case(adj=adj.tolist())
+        inputs = {"adj": adj}
+    else:
+        n, _ = mesh_reference(mesh)
+        inputs = {}
+    c, cz = V.real("c"), V.real("cz")
+    w = V.real_array("w", (n,))
+    _positive(ctx, c, cz)
+    _nonneg(ctx, w)
+    inputs.update({"c": c, "cz": cz, "w": w, "x": V.real_array("x", (n,))})
+    run(ctx, body_kernels, inputs, {"mesh": mesh, "pd": pd})
+
+
+# ------------------------------------------------------------------------------------------------ level C: scheme classes on real mappers
+
+def _scheme(name, inp, sscale):
+    import autoarray as aa
+    ss = inp["ss"] if sscale == "sym" else sscale
+    if name == "Constant":
+        return aa.reg.Constant(coefficient=inp["c"])
+    if name == "ConstantZeroth":
+        return aa.reg.ConstantZeroth(coefficient_neighbor=inp["c"], coefficient_zeroth=inp["cz"])
+    if name == "Zeroth":
+        return aa.reg.Zeroth(coefficient=inp["c"])
+    if name == "AdaptiveBrightness":
+        return aa.reg.AdaptiveBrightness(inner_coefficient=inp["ci"], outer_coefficient=inp["co"], signal_scale=ss)
+    if name == "BrightnessZeroth":
+        return aa.reg.BrightnessZeroth(coefficient=inp["c"], signal_scale=ss)
+    if name == "ConstantSplit":
+        return aa.reg.ConstantSplit(coefficient=inp["c"])
+    if name == "AdaptiveBrightnessSplit":
+        return aa.reg.AdaptiveBrightnessSplit(inner_coefficient=inp["ci"], outer_coefficient=inp["co"], signal_scale=ss)
+    raise ValueError(name)
+
+
+def gram_ref(n, rw, mappings, sizes, weights):
+    """split-cross reference: ridge*I + sum_i rw_i sum_{k in cross(i)} a_k a_k^T with a_k = sum_l weights[k,l] e_{mappings[k,l]}
+    (products of two table weights are formed first, as float products when the tables are concrete)"""
+    H = np.zeros((n, n), dtype=object)
+    for i in range(n):
+        H[i, i] = RIDGE
+    for k in range(len(mappings)):
+        i = k // 4
+        for l in range(int(sizes[k])):
+            for m in range(int(sizes[k])):
+                a, b = int(mappings[k][l]), int(mappings[k][m])
+                H[a, b] = H[a, b] + weights[k][l] * weights[k][m] * rw[i]
+    return H
+
+
+def body_scheme(inp, mesh, scheme, sscale, img=IMG, pd=False):
+    """observe at regularization.regularization_matrix_from / regularization_weights_from(linear_obj=mapper) on a real mapper"""
+    n, pairs = mesh_reference(mesh)
+    x = np.asarray(inp["x"]).reshape(-1)[:n]
+    A, E = {}, {}
+    mapper = hx.attempt(build_mapper, mesh, img, adapt=inp.get("adapt"))
+    if isinstance(mapper, hx.Raised):
+        A["mapper"] = repr(mapper) + mapper.msg
+        E["mapper"] = "built"
+        return A, E
+    A["params"] = int(mapper.params)
+    E["params"] = n
+    reg = _scheme(scheme, inp, sscale)
+    H = hx.attempt(reg.regularization_matrix_from, linear_obj=mapper)
+    w = hx.attempt(reg.regularization_weights_from, linear_obj=mapper)
+    if isinstance(w, hx.Raised):
+        A["weights.no_exception"] = repr(w) + " " + w.msg
+        E["weights.no_exception"] = "ok"
+        return A, E
+    w = np.asarray(hx.unwrap(w))
+    A["weights.shape"] = [int(s) for s in w.shape]
+    E["weights.shape"] = [n]
+    if tuple(w.shape) != (n,):
+        return A, E
+    tag = scheme
+    abstract_terms(w)
+    if scheme == "Constant":
+        c = inp["c"]
+        A["weights.values"] = w
+        E["weights.values"] = np.array([c] * n, dtype=object)
+        matrix_checks(A, E, tag, H, n, x, H_ref=laplacian_ref(n, pairs, lambda i, j: c * c),
+                      quad_ref=pair_form(n, pairs, lambda i, j: c * c, x), dominance="strict", pd_direct=pd)
+    elif scheme == "AdaptiveBrightness":
+        cw = lambda i, j: w[i] * w[i] + w[j] * w[j]
+        matrix_checks(A, E, tag, H, n, x, H_ref=laplacian_ref(n, pairs, cw), quad_ref=pair_form(n, pairs, cw, x), dominance="strict")
+    elif scheme == "ConstantZeroth":
+        matrix_checks(A, E, tag, H, n, x, dominance="weak", pd_direct=pd)
+    elif scheme in ("Zeroth", "BrightnessZeroth"):
+        diagonal_checks(A, E, tag, H, n)
+    elif scheme in ("ConstantSplit", "AdaptiveBrightnessSplit"):
+        # PD certificate: H is ridge*I + the rw-weighted Gram matrix of the cross rows
+        mp, sz, wt = split_tables(mesh)
+        rows = cross_rows(mp, sz, wt)
+        if isinstance(rows, hx.Raised):
+            A["cross_rows"] = repr(rows) + rows.msg
+            E["cross_rows"] = "ok"
+            return A, E
+        rw = w * w
+        matrix_checks(A, E, tag, H, n, x, H_ref=gram_ref(n, rw, *rows))
+    return A, E
+
+
+def cross_rows(mappings, sizes, weights):
+    """the rows a_k the split kernel is handed: the repository's own reg_split_from applied to fresh copies of the tables.
+    (The property fixes no particular cross geometry; the certificate below only needs H to be the Gram matrix of whatever
+    rows the kernel receives, so reg_split_from is executed, not specified.)"""
+    from autoarray.inversion.regularization import regularization_util as ru
+    return hx.attempt(ru.reg_split_from, splitted_mappings=np.array(mappings, dtype=int), splitted_sizes=np.array(sizes, dtype=int),
+                      splitted_weights=np.array(weights, dtype=np.asarray(weights).dtype))
+
+
+def case_scheme(ctx, mesh, scheme, sscale, img=IMG, pd=False):
+    n, _ = mesh_reference(mesh)
+    inputs = {"x": V.real_array("x", (n,))}
+    if scheme in ("Constant", "ConstantZeroth", "Zeroth", "BrightnessZeroth", "ConstantSplit"):
+        inputs["c"] = V.real("c")
+        _positive(ctx, inputs["c"])
+    if scheme == "ConstantZeroth":
+        inputs["cz"] = V.real("cz")
+        _positive(ctx, inputs["cz"])
+    if scheme in ("AdaptiveBrightness", "AdaptiveBrightnessSplit"):
+        inputs["ci"], inputs["co"] = V.real("ci"), V.real("co")
+        _positive(ctx, inputs["ci"], inputs["co"])
+    if scheme in ("AdaptiveBrightness", "AdaptiveBrightnessSplit", "BrightnessZeroth"):
+        inputs["adapt"] = V.real_array("a", (img, img))
+        _positive(ctx, inputs["adapt"])
+        if sscale == "sym":
+            inputs["ss"] = V.real("ss")
+            _positive(ctx, inputs["ss"])
+    # an uninterpreted pow cannot be compared with the native run under a model: those cases are not cross-validated
+    run(ctx, body_scheme, inputs, {"mesh": mesh, "scheme": scheme, "sscale": sscale, "img": img, "pd": pd}, validate=(sscale != "sym"))
+
+
+# ------------------------------------------------------------------------------------------------ level S: split-cross schemes, symbolic tables
+
+def _dyadic(weights):
+    """stand-in weights on a 1/16 grid (float products of two of them are exact)"""
+    return np.round(np.asarray(weights, dtype=float) * 16.0) / 16.0
+
+
+def body_split(inp, mesh, scheme, weights_mode, pd=False):
+    """ConstantSplit / AdaptiveBrightnessSplit on a MockMapper carrying the real mapper's split-cross mappings and sizes with
+    symbolic (or dyadic stand-in) interpolation weights and symbolic pixel signals"""
+    import autoarray as aa
+    from autoarray.inversion.pixelization.mappers.abstract import PixSubWeights
+    n, _ = mesh_reference(mesh)
+    x = np.asarray(inp["x"]).reshape(-1)[:n]
+    mp, sz, wt = split_tables(mesh)
+    if weights_mode == "sym":
+        wt_in = np.array(np.asarray(inp["sw"]).reshape(wt.shape), dtype=object)
+        for k in range(len(mp)):             # entries beyond the row size are padding (zero in the repository's tables)
+            for l in range(int(sz[k]), wt.shape[1]):
+                wt_in[k, l] = 0.0
+    else:
+        wt_in = _dyadic(wt)
+    A, E = {}, {}
+
+    def tables():
+        return PixSubWeights(mappings=mp.copy(), sizes=sz.copy(), weights=wt_in.copy())
+
+    sig = np.asarray(inp["sig"]).reshape(-1)[:n] if "sig" in inp else None
+    reg = _scheme(scheme, inp, 1)
+    # reg_split_from updates the tables in place: every call gets a fresh carrier
+    H = hx.attempt(lambda: reg.regularization_matrix_from(linear_obj=aa.m.MockMapper(
+        pix_sub_weights_split_cross=tables(), pixel_signals=sig, parameters=n)))
+    w = hx.attempt(lambda: reg.regularization_weights_from(linear_obj=aa.m.MockMapper(pixel_signals=sig, parameters=n)))
+    if isinstance(w, hx.Raised):
+        A["weights.no_exception"] = repr(w) + " " + w.msg
+        E["weights.no_exception"] = "ok"
+        return A, E
+    w = np.asarray(hx.unwrap(w))
+    A["weights.shape"] = [int(s) for s in w.shape]
+    E["weights.shape"] = [n]
+    if tuple(w.shape) != (n,):
+        return A, E
+    rows = cross_rows(mp, sz, wt_in)
+    if isinstance(rows, hx.Raised):
+        A["cross_rows"] = repr(rows) + rows.msg
+        E["cross_rows"] = "ok"
+        return A, E
+    rw = w * w
+    abstract_terms(w)
+    # entrywise equality with the Gram matrix ridge*I + sum_i rw_i sum_k a_k a_k^T is the PD certificate (x^T H x is then
+    # sum_i rw_i sum_k (a_k.x)^2 + ridge |x|^2 by construction; z3 does not normalise that degree-6 identity, it is not posed)
+    matrix_checks(A, E, scheme, H, n, x, H_ref=gram_ref(n, rw, *rows), pd_direct=pd)
+    return A, E
+
+
+def case_split(ctx, mesh, scheme, weights_mode, pd=False):
+    n, _ = mesh_reference(mesh)
+    inputs = {"x": V.real_array("x", (n,))}
+    if scheme == "ConstantSplit":
+        inputs["c"] = V.real("c")
+        _positive(ctx, inputs["c"])
+    else:
+        inputs["ci"], inputs["co"] = V.real("ci"), V.real("co")
+        inputs["sig"] = V.real_array("s", (n,))
+        _positive(ctx, inputs["ci"], inputs["co"])
+        for e in inputs["sig"]:
+            ctx.assume(z3.And(e.t >= 0, e.t <= 1))
+    if weights_mode == "sym":
+        inputs["sw"] = V.real_array("sw", split_tables(mesh)[2].shape)
+    run(ctx, body_split, inputs, {"mesh": mesh, "scheme": scheme, "weights_mode": weights_mode, "pd": pd})
+
+
+# ------------------------------------------------------------------------------------------------ level I: block placement in the inversion
+
+BLOCK_SIZE = {"S2": 2, "S3": 3, "N1": 1, "N2": 2, "C": 9}
+
+
+def body_blocks(inp, seq):
+    """inversion.regularization_matrix / regularization_matrix_reduced for a sequence of linear objects:
+    S<k>: regularized, arbitrary symbolic k x k matrix;  N<k>: k parameters, no regularization;  C: real rectangular 3x3 mapper + Constant"""
+    import autoarray as aa
+    A, E = {}, {}
+    objs, blocks = [], []
+    for pos, kind in enumerate(seq):
+        k = BLOCK_SIZE[kind]
+        if kind[0] == "S":
+            B = np.asarray(inp["B%d" % pos]).reshape(k, k)
+            objs.append(aa.m.MockLinearObj(parameters=k, regularization=aa.m.MockRegularization(regularization_matrix=B)))
+            blocks.append((True, B))
+        elif kind[0] == "N":
+            objs.append(aa.m.MockLinearObj(parameters=k, regularization=None))
+            blocks.append((False, np.zeros((k, k))))
+        else:
+            c = inp["c%d" % pos]
+            mesh = ["rect", 3, 3]
+            mapper = build_mapper(mesh, IMG)
+            mapper.regularization = aa.reg.Constant(coefficient=c)
+            objs.append(mapper)
+            n, pairs = mesh_reference(mesh)
+            blocks.append((True, laplacian_ref(n, pairs, lambda i, j: c * c)))
+    total = sum(b.shape[0] for _, b in blocks)
+    full = np.zeros((total, total), dtype=object)
+    o = 0
+    for _, b in blocks:
+        k = b.shape[0]
+        full[o:o + k, o:o + k] = b
+        o += k
+    regd = [b for r, b in blocks if r]
+    tr = sum(b.shape[0] for b in regd)
+    red = np.zeros((tr, tr), dtype=object)
+    o = 0
+    for b in regd:
+        k = b.shape[0]
+        red[o:o + k, o:o + k] = b
+        o += k
+    inv = aa.m.MockInversion(linear_obj_list=objs)
+    for pos, obj in enumerate(objs):
+        if not blocks[pos][0]:
+            A["obj%d.zero_block" % pos] = hx.attempt(lambda: np.asarray(obj.regularization_matrix))
+            E["obj%d.zero_block" % pos] = blocks[pos][1]
+    Hf = hx.attempt(lambda: np.asarray(inv.regularization_matrix))
+    A["full.shape"] = list(Hf.shape) if not isinstance(Hf, hx.Raised) else repr(Hf)
+    E["full.shape"] = [total, total]
+    A["full.entries"] = Hf
+    E["full.entries"] = full
+    inv2 = aa.m.MockInversion(linear_obj_list=objs)
+    Hr = hx.attempt(lambda: np.asarray(inv2.regularization_matrix_reduced))
+    A["reduced.shape"] = list(Hr.shape) if not isinstance(Hr, hx.Raised) else repr(Hr)
+    E["reduced.shape"] = [tr, tr]
+    if tr > 0:
+        A["reduced.entries"] = Hr
+        E["reduced.entries"] = red
+    return A, E
+
+
+def case_blocks(ctx, seq):
+    inputs = {}
+    for pos, kind in enumerate(seq):
+        k = BLOCK_SIZE[kind]
+        if kind[0] == "S":
+            inputs["B%d" % pos] = V.real_array("B%d" % pos, (k, k))
+        elif kind == "C":
+            inputs["c%d" % pos] = V.real("c%d" % pos)
+            _positive(ctx, inputs["c%d" % pos])
+    if not inputs:
+        # nothing symbolic in an all-unregularized sequence: give the solver the (trivial) placement question anyway
+        inputs["unused"] = V.real("unused")
+    run(ctx, body_blocks, inputs, {"seq": seq})
+
+
+# ------------------------------------------------------------------------------------------------ cases / replay
+
+BODIES = {"case_kernels": body_kernels, "case_scheme": body_scheme, "case_split": body_split, "case_blocks": body_blocks}
+
+
+def cases(tier):
+    q = tier == "quick"
+    out = []
+    rects = [(3, 3), (3, 4), (4, 3), (4, 4), (3, 5), (5, 5)] + ([] if q else [(4, 5), (5, 3), (6, 6)])
+    dels = ["D5", "D6", "D7", "D9"]
+    pd_cap = 9 if q else 12
+    meshes = [["rect", h, w] for h, w in rects] + [["del", d] for d in dels]
+    for m in meshes:
+        n = mesh_reference(m)[0]
+        out.append(("case_kernels", {"mesh": m, "pd": n <= pd_cap}))
+    for n in ([2, 3, 4] if q else [2, 3, 4, 5]):
+        out.append(("case_kernels", {"mesh": ["graph", n], "pd": True}, {"split": 0 if n < 5 else 4}))
+    # scheme classes on real mappers
+    cmeshes = [["rect", 3, 3], ["rect", 3, 4], ["del", "D5"], ["del", "D7"]] + ([] if q else [["rect", 4, 4], ["rect", 4, 3], ["del", "D6"], ["del", "D9"]])
+    for m in cmeshes:
+        n = mesh_reference(m)[0]
+        for scheme in ("Constant", "ConstantZeroth", "Zeroth"):
+            # ConstantZeroth has two coefficients: the direct query terminates only on the smallest meshes
+            pd = n <= (5 if scheme == "ConstantZeroth" else pd_cap) and scheme != "Zeroth"
+            out.append(("case_scheme", {"mesh": m, "scheme": scheme, "sscale": 1, "pd": pd}))
+        for scheme in ("AdaptiveBrightness", "BrightnessZeroth"):
+            for ss in (1, 2, "sym"):
+                for img in ([3] if q else [3, 4]):
+                    out.append(("case_scheme", {"mesh": m, "scheme": scheme, "sscale": ss, "img": img}))
+        if m[0] == "del":
+            out.append(("case_scheme", {"mesh": m, "scheme": "ConstantSplit", "sscale": 1}))
+            for ss in (1, "sym"):
+                out.append(("case_scheme", {"mesh": m, "scheme": "AdaptiveBrightnessSplit", "sscale": ss}))
+    # split-cross schemes with symbolic tables
+    for d in (["D5", "D6"] if q else dels):
+        m = ["del", d]
+        n = mesh_reference(m)[0]
+        out.append(("case_split", {"mesh": m, "scheme": "ConstantSplit", "weights_mode": "sym"}))
+        out.append(("case_split", {"mesh": m, "scheme": "AdaptiveBrightnessSplit", "weights_mode": "sym"}))
+        out.append(("case_split", {"mesh": m, "scheme": "ConstantSplit", "weights_mode": "dyadic", "pd": n <= (6 if q else 9)}))
+    # block placement
+    alphabet = ["S2", "N1", "N2"]
+    seqs = []
+    for L in range(1, 4 if q else 5):
+        seqs += [list(s) for s in itertools.product(alphabet if q or L < 4 else ["S2", "S3", "N1"], repeat=L)]
+    seqs += [["C"], ["C", "N1"], ["N2", "C"], ["N1", "C", "N2"], ["C", "N1", "S2"], ["S2", "C"]]
+    if not q:
+        seqs += [["C", "C"], ["C", "N2", "C"], ["N1", "C", "S3", "N2"]]
+    for s in seqs:
+        out.append(("case_blocks", {"seq": s}))
+    return out
+
+
+def replay(cand):
+    cand = dict(cand)
+    # tight tolerance: the 1e-8 ridge must be visible in the float replay (hx default 1e-7 would hide it)
+    return hx.replay_body(BODIES[cand["case_fn"]], cand, tol=1e-11, key=cand["obligation"])
